@@ -396,16 +396,23 @@ Fixpoint r_tobytes (r : rep) : res (list N) :=
       | None => Raise TypeError
       end
   | RTorchConj dt _ storage =>
-      (* _get_cbytes: detach().cpu().contiguous() keeps the conj bit lazy, so the bytes are the UNresolved storage
-         (known finding torch-conj-bytes) *)
+      (* _get_cbytes: detach().cpu().resolve_conj().resolve_neg().contiguous() — the resolved values (since fix
+         c3d2ba2; before it the bytes were the unresolved storage, see tobytes_conj_before_fix) *)
       match bitwidth dt with
-      | Some bw => Ok (encode_elems (itemsize_of bw) storage)
+      | Some bw => Ok (encode_elems (itemsize_of bw) (map (fun s => N.lxor s (2 ^ (bw - 1))) storage))
       | None => Raise TypeError
       end
   | RPacked dt shape raw => packed_raw dt shape raw
   | RProto p => proto_tobytes p
   | RExternal dt shape file off len => ext_tobytes dt shape file off len
   | RLazy _ _ inner => r_tobytes inner
+  end.
+
+(* before fix c3d2ba2: the bytes of a lazily conjugated view were its unresolved storage *)
+Definition tobytes_conj_before_fix (dt : N) (storage : list N) : res (list N) :=
+  match bitwidth dt with
+  | Some bw => Ok (encode_elems (itemsize_of bw) storage)
+  | None => Raise TypeError
   end.
 
 (* ------------------------------------------------------------------ tofile *)
@@ -499,6 +506,9 @@ Inductive represents (dt : N) (shape : list N) (xs : list N) : rep -> Prop :=
     represents dt shape xs (RArray dt shape store)
 | rep_torch bw : bitwidth dt = Some bw -> 8 <= bw ->
     represents dt shape xs (RTorch dt shape xs)
+| rep_torch_conj bw storage : bitwidth dt = Some bw -> 8 <= bw ->
+    map (fun s => N.lxor s (2 ^ (bw - 1))) storage = xs ->
+    represents dt shape xs (RTorchConj dt shape storage)
 | rep_packed bw : bitwidth dt = Some bw -> bw < 8 ->
     represents dt shape xs (RPacked dt shape (le_pack dt xs))
 | rep_proto_raw :
